@@ -724,7 +724,8 @@ def kbl_case(rng):
     n = rng.randrange(3, 8)
     t = G.random_flip(G.random_topology(n, rng), rng)
     schemes = G.date_schemes(n, rng)
-    sname = rng.choice(["calendar-decimal", "ages-decimal", "calendar", "ages", "calendar-decimal"])
+    sname = rng.choice(["calendar-decimal", "ages-decimal", "calendar", "ages", "forward-max0", "mixed-signs",
+                        "negative-only", "forward-max0"])
     dates = schemes[sname]
     leaf = G.expected_leaf_heights(dates)
     edges, root, below = G.independent_index(t, n)
@@ -958,6 +959,31 @@ def run(ck: Check):
         X.section_instances(ck, rng, record)
         X.section_batches(ck, rng, record, oracle, run_impl)
         X.section_failures(ck, rng, record)
+
+        def kbl_for(t_, dates_, heights_):
+            n_ = len(dates_)
+            edges_, _r, _b = G.independent_index(t_, n_)
+            lengths_ = {c_: heights_[p_] - heights_[c_] for p_, c_ in edges_}
+            return run_kbl({"type": "kbl", "tree": G.paren(t_), "dates": dates_, "n": n_, "heights": heights_,
+                            "newick": kbl_newick(t_, n_, lengths_)})
+
+        X.section_translation(ck, rng, record, kbl_for)
+        # dated trees in other time units: above the documented floor of heights_from_branch_lengths (eps = 1e-6 per
+        # branch) the tree must come back unchanged; below it the floor acts by design (measured and recorded, not a
+        # clause of C06, whose statement is about parameters <-> heights and dates -> tips)
+        floor_obs = {}
+        for unit in (1e3, 1e-3, 1e-9):
+            t_ = G.random_flip(G.random_topology(5, rng), rng)
+            dates_ = [v * unit for v in (0.0, 1.5, 0.25, 3.0, 2.0)]
+            leaf_ = G.expected_leaf_heights(dates_)
+            hts_ = [v for v in X.valid_heights(t_, [d / unit for d in dates_], rng)]
+            res_ = kbl_for(t_, dates_, leaf_ + [h * unit for h in hts_])
+            ck.case(key=("kbl-unit", unit, G.paren(t_)), bucket=f"keep_branch_lengths/unit={unit:g}")
+            floor_obs[f"unit={unit:g}"] = "reproduced" if not res_ else "changed: " + res_[0][1][:120]
+            if res_ and unit >= 1e-3:
+                record(f"keep_branch_lengths:unit={unit:g}", f"dated tree in time unit {unit:g}: {res_[0][1]}",
+                       {"type": "kbl-unit", "unit": unit}, (5, 1, 0))
+        ck.extra["keep_branch_lengths_in_other_time_units"] = floor_obs
         ck.extra["tensor_constructors_without_dtype_or_device"] = X.scan_constructors(REPO)
         # ---- live models: update histories (assignment and in-place + notification)
         n_hist = 240 if ck.thorough() else 60
@@ -1072,6 +1098,19 @@ def replay(path: str) -> int:
         rc = X.replay_route(obj)
         print("VIOLATES" if rc else "property holds on this input")
         return rc
+    if typ == "translation":
+        t = G.parse_paren(obj["tree"])
+        base, dates, kind, x = obj["base"], obj["dates"], obj["kind"], obj["x"]
+        ref = X.observables(G.make_reparam(t, base, torch.tensor(x, dtype=DT), kind))
+        got = X.observables(G.make_reparam(t, dates, torch.tensor(x, dtype=DT), kind))
+        print(f"tree {obj['tree']} {kind} parameters {x}\n dates {base} -> heights {ref['H'].tolist()}\n dates {dates} -> heights {got['H'].tolist()}")
+        bad = X.same_as_reference(ref, got, 0.0) if min(dates) != 0.0 else []
+        bad += [w for _c, w in X.property_on(G.make_reparam(t, dates, torch.tensor(x, dtype=DT), kind), dates)]
+        edges, _r, _b = G.independent_index(t, len(dates))
+        for w in bad:
+            print("VIOLATES:", w)
+        print("VIOLATES" if bad else "property holds on this input (constructor route; ./check C06 re-runs every route)")
+        return 1 if bad else 0
     if typ in ("dtype", "instances", "failure"):
         class _Ck:  # minimal stand-in: re-run the section and report what it records
             def __init__(self):
